@@ -54,6 +54,11 @@ impl FixedOutput for LogDigest {
     }
 }
 
+/// the raw (input, output) pairs of the random oracle since the last `ro_clear`
+pub fn ro_take_raw() -> Vec<(Vec<u8>, Vec<u8>)> {
+    RO_LOG.with(|l| std::mem::take(&mut *l.borrow_mut()))
+}
+
 pub fn ro_clear() {
     RO_LOG.with(|l| l.borrow_mut().clear());
 }
